@@ -26,6 +26,7 @@ def run(ctx, rep):
                 "split_string_v2 is evaluated abstractly per (state, character class) to its transition table; round trip is decided by "
                 "finite composition over all class singletons, pairs and the empty string. Plus literal/const agreement on record framing.")
     rep.assume("NUL inside an argument is outside the property's alphabet; I/O errors are not modelled")
+    _codecs.fresh_output_files(F, rep, "C04.fresh-file", ["compiler"], 1)
     rep.assume("a character not compared against any constant by the reader behaves like the class representative 'x' (the reader touches "
                "characters only through comparisons with constants and char::is_whitespace)")
     try:
@@ -34,7 +35,10 @@ def run(ctx, rep):
         nrows = _codecs.normalise(rows, F)
     except codec.ShapeChanged as e:
         rep.ob("C04.roundtrip", "extract codec tables", "undecided", "ANCHOR-SHAPE-CHANGED: %s" % e, None)
+        # fail closed: a writer/reader the extractor cannot read is not a pass (exit 2, no VIOLATION line)
+        rep.floor("C04.codec tables extracted (writer/reader in a form the extractor understands)", 0, 1)
         return
+    rep.floor("C04.codec tables extracted (writer/reader in a form the extractor understands)", 1, 1)
     rep.extra["writer_W1_binary"] = [{"when": r["cond_text"], "per_argument_output": codec.expr_str(r["expr"])} for r in nrows]
     rep.extra["reader_state_vars"] = tab.names
     rep.extra["reader_classes"] = tab.classes
